@@ -11,8 +11,8 @@ _CACHE = {}
 def traj(kind, nsamp):
     key = (kind, nsamp)
     if key not in _CACHE:
-        sd = {"g211": ("grid", 2, 1, 1, 0), "g321": ("grid", 3, 2, 1, 1), "g111": ("grid", 1, 1, 1, 0), "g223": ("grid", 2, 2, 3, 4), "tri": ("graph", "triangle"), "pair": ("graph", "pair")}[kind]
-        net = "ABC_bi" if kind in ("g321", "tri", "g223") else "AB_rev"
+        sd = {"g211": ("grid", 2, 1, 1, 0), "g321": ("grid", 3, 2, 1, 1), "g111": ("grid", 1, 1, 1, 0), "g223": ("grid", 2, 2, 3, 4), "g132": ("grid", 1, 3, 2, 2), "tri": ("graph", "triangle"), "pair": ("graph", "pair")}[kind]
+        net = "ABC_bi" if kind in ("g321", "tri", "g223", "g132") else "AB_rev"
         system = catalogue.build(net, sd)
         ns, nc = len(system.network.species), system.space.size()
         data = UnitArray(np.arange(nsamp * ns * nc, dtype=float), "mmol")
@@ -51,7 +51,15 @@ def coords_consistent(kind, nsamp, s, n, x, y, z):
     sp = tr.system.space
     i = z * sp.w * sp.h + y * sp.w + x
     expect = n * ns * nc + s * nc + i
-    return tr.get_trajectory_point(s, n, (x, y, z)).value == expect and tr.get_trajectory(s, (x, y, z)).value[n] == expect
+    class P:
+        pass
+    o = P()
+    o.x, o.y, o.z = x, y, z
+    # every coordinate form names the same cell as the linear index: tuple, list, object with x / y / z
+    for pos in ((x, y, z), [x, y, z], o):
+        if tr.get_trajectory_point(s, n, pos).value != expect or tr.get_trajectory(s, pos).value[n] != expect:
+            return False
+    return tr.get_trajectory_point(s, n, i).value == expect
 
 
 class DuckTimes:
